@@ -205,6 +205,21 @@ var lockEntries = []lockEntry{
 // resolveLockEntries expands the table for a loaded program ("@goroutines" -> functions started by go statements).
 func resolveLockEntries(p *Program) []lockEntry {
 	var out []lockEntry
+	// every other exported method of the handles (*DB, *ItemIterator) is an entry too: a method added to the API is
+	// held to the same lock discipline without being listed
+	listed := map[string]bool{}
+	for _, e := range lockEntries {
+		listed[e.Key] = true
+	}
+	for _, f := range exportedAPIFuncs(p) {
+		if f.Signature.Recv() == nil || listed[funcKey(f)] {
+			continue
+		}
+		switch typeName(derefType(f.Signature.Recv().Type())) {
+		case "pogreb.DB", "pogreb.ItemIterator":
+			out = append(out, lockEntry{funcKey(f), ""})
+		}
+	}
 	for _, e := range lockEntries {
 		if e.Key != "@goroutines" {
 			out = append(out, e)
@@ -280,9 +295,9 @@ func sharedFileEvent(n Node) *fsEvent {
 		return nil
 	}
 	switch r := e.Recv.Root.(type) {
-	case *ssa.Call, *ssa.Extract:
+	case *ssa.Call, *ssa.Extract, *ssa.Alloc:
 		_ = r
-		return nil // handle obtained from a call in this activation chain (OpenFile / openFile): local
+		return nil // handle obtained from a call, or a struct built, in this activation chain (OpenFile / openFile): local
 	}
 	if !strings.Contains(e.Recv.Chain, ".File") {
 		return nil
